@@ -263,7 +263,9 @@ def build(scn, rng, sched_kind):
             batt = Linear2StageBattery(cap, init, pw, noise_level=scn.get("noise", 0.0),
                                        transition_soc=scn.get("tau", 0.8),
                                        charge_calculation=scn.get("calc", "continuous"))
-        events.append(PluginEvent(x["arr"], EV(x["arr"], x["dep"], x["req"] / KWH, sid(x["st"]), vid(i), batt)))
+        est = x["dep"] + rng.choice([-1, 0, 0, 2, 5])    # irrelevant to the simulator; only schedulers read it
+        events.append(PluginEvent(x["arr"], EV(x["arr"], x["dep"], x["req"] / KWH, sid(x["st"]), vid(i), batt,
+                                               estimated_departure=est if est > x["arr"] else None)))
     events += [RecomputeEvent(r) for r in sorted(scn["recomp"])]
     rng.shuffle(events)
     scripted = None
@@ -302,6 +304,8 @@ def record_one(seed, ideal=True, **scn_extra):
                 try:
                     sim.run()
                     break
+                except OutOfScope:
+                    raise
                 except ScriptedCrash:
                     rec.lines.append({"a": "raise", "t": sim.iteration})
                     if rng.random() < 0.5:
@@ -310,6 +314,10 @@ def record_one(seed, ideal=True, **scn_extra):
                         sim = sim2
                         rec.lines.append({"a": "dumpload"})
                     rec.lines.append({"a": "resume"})
+                except Exception as e:  # noqa - the real code failed: the specification has no such action
+                    rec.lines.append({"a": "exception", "t": sim.iteration, "type": type(e).__name__,
+                                      "msg": str(e)[:80].replace('"', "'").replace("\\", "/")})
+                    break
         finally:
             _verif.set_sink(prev)
     scn_tla = {"sess": scn["sess"], "recomp": set(scn["recomp"]), "mr": scn["mr"], "ideal": scn["ideal"],
@@ -395,3 +403,149 @@ def clause(tr, v):
     k = v["reached"]
     a = tr["ev"][k - 1]["a"] if k <= len(tr["ev"]) else "end"
     return "%s-not-enabled@%s" % (a, v["pc"])
+
+
+# ----------------------------------------------------------------------------------- check integration
+CLAUSE_OWNER = [
+    ("apply.E", None),  # decided below (ideal: C02, envelope: C03)
+    ("apply.P", "C04"), ("apply.evsePilot", "C04"), ("update.pilots", "C04"), ("update.", "C04"), ("reject", "C04"),
+    ("apply.exact", "C02"), ("apply.evE", "C02"), ("apply.chg", "C02"), ("apply.peak", "C02"),
+    ("sched.", "C05"), ("sched-not-enabled", "C05"), ("apply-not-enabled@Sched", "C05"), ("update-not-enabled", "C05"),
+    ("raise", "C09"), ("resume", "C09"), ("dumpload", "C09"),
+]
+
+
+def owner_of(tr, v):
+    c = clause(tr, v)
+    own = "C01"
+    if c.startswith("apply.E"):
+        own = "C02" if tr["scn"]["ideal"] else "C03"
+    else:
+        for pre, o in CLAUSE_OWNER:
+            if o and c.startswith(pre):
+                own = o
+                break
+    owners = {own}
+    upto = tr["ev"][: max(0, v["reached"] - 1)]
+    if any(l["a"] == "raise" for l in upto):
+        owners.add("C09")
+    return c, owners
+
+
+def _corrupt(tr):
+    """A copy of an accepted trace with one logged field changed (binding self-test)."""
+    import copy
+    c = copy.deepcopy({"scn": {k: v for k, v in tr["scn"].items() if k != "menu"}, "ev": tr["ev"]})
+    c["scn"]["menu"] = tr["scn"]["menu"]
+    for line in c["ev"]:
+        if line["a"] == "apply" and any(line["occ"]):
+            i = [o for o in line["occ"] if o][0]
+            line["evE"][i - 1] += 7 + (0 if tr["scn"]["ideal"] else 2 * len(c["ev"]))
+            return c
+    for line in c["ev"]:
+        if line["a"] == "done":
+            line["t"] += 1
+            return c
+    return None
+
+
+def _validate_job(args):
+    traces = args
+    res, verdicts = validate_batch(traces)
+    return ({"generated": res.generated, "distinct": res.distinct, "ok": res.ok, "violated": res.violated,
+             "wall_s": res.wall_s, "cmd": res.cmd, "depth": res.depth, "tail": res.stdout[-1500:]}, verdicts)
+
+
+def trace_validation(rep, prop, owners, seed, n, twostage_frac=0.3, noise=True, batch=40):
+    """Record n executions of the real code, validate them with TLC, book the results in rep."""
+    import random as _r
+    from concurrent.futures import ThreadPoolExecutor
+    from .tlc import TlcFailure
+    traces, infos, oos = [], [], 0
+    for j in range(n):
+        s = seed * 1009 + j
+        r = _r.Random(s)
+        ideal = r.random() >= twostage_frac
+        extra = {}
+        if not ideal:
+            extra = dict(noise=r.choice([0.0, 0.0, 0.5, 2.0]) if noise else 0.0, tau=r.choice([0.0, 0.5, 0.8, 0.95]),
+                         calc=r.choice(["continuous", "stepwise"]))
+        try:
+            tr, info = record_one(s, ideal=ideal, **extra)
+        except OutOfScope:
+            oos += 1
+            continue
+        info.update(extra)
+        traces.append(tr)
+        infos.append(info)
+    # binding self-test: corrupted copies must be rejected
+    corrupted = []
+    for tr in traces[:6]:
+        c = _corrupt(tr)
+        if c is not None:
+            corrupted.append(c)
+    allt = traces + corrupted
+    chunks = [allt[i:i + batch] for i in range(0, len(allt), batch)]
+    with ThreadPoolExecutor(max_workers=8) as ex:
+        outs = list(ex.map(_validate_job, chunks))
+    verdicts, states, gen = {}, 0, 0
+    for ci, (st, v) in enumerate(outs):
+        if not st["ok"]:
+            raise TlcFailure("trace validation: TLC reports %s\n%s" % (st["violated"], st["tail"]))
+        rep.tlc_runs.append({"what": "code->spec trace validation (AcnSimTrace.tla), all AcnSim invariants in every state",
+                             "cfg": "generated", "cmd": st["cmd"], "generated": st["generated"],
+                             "distinct": st["distinct"], "depth": st["depth"], "wall_s": round(st["wall_s"], 1),
+                             "ok": True, "violated": None})
+        rep.states += st["distinct"]
+        rep.transitions += st["generated"]
+        for k, x in v.items():
+            verdicts[ci * batch + k] = x
+    nbad = 0
+    for i, tr in enumerate(allt):
+        v = verdicts[i]
+        accepted = v["reached"] == v["total"] and not v["bad"]
+        if i >= len(traces):          # a corrupted copy
+            if accepted:
+                raise TlcFailure("binding self-test failed: a corrupted trace was accepted")
+            nbad += 1
+            continue
+        info = infos[i]
+        rep.count("trace-%d" % info["seed"], info["lines"] > 12)
+        if accepted:
+            rep.traces_accepted += 1
+            continue
+        c, own = owner_of(tr, v)
+        if own & set(owners):
+            rep.violation("%s:trace:%s" % (sorted(own & set(owners))[0], c), explain(tr, v)[:700],
+                          {"kind": "acnsim_trace", "info": info, "verdict": v,
+                           "trace": json.loads(json.dumps(tr, default=_jsonable))})
+        else:
+            for o in own:
+                rep.foreign_divergence(o)
+    rep.notes.append("%d executions of the real simulator (real schedulers: uncontrolled / sorted / round robin / random "
+                     "scripted with exceptions and JSON round trips; ideal and two-stage batteries) recorded through "
+                     "the trace points and validated by TLC; %d out of scope (non-integer pilots); binding self-test: "
+                     "%d corrupted copies, all rejected" % (len(traces), oos, nbad))
+    if traces:
+        rep.sample({"trace_info": infos[0], "first_lines": json.loads(json.dumps(traces[0]["ev"][:6], default=_jsonable))})
+    return len(traces)
+
+
+def _jsonable(o):
+    if isinstance(o, (set, frozenset)):
+        return sorted(o)
+    if isinstance(o, IntFun):
+        return {str(k): v for k, v in o.d.items()}
+    return repr(o)
+
+
+def replay_trace(payload):
+    """./check --replay for a recorded trace violation: re-record the same seed and validate it."""
+    info = payload["info"]
+    extra = {k: info[k] for k in ("noise", "tau", "calc") if k in info}
+    tr, _ = record_one(info["seed"], ideal=info["ideal"], **extra)
+    res, v = validate_batch([tr])
+    v = v[0]
+    if v["reached"] == v["total"] and not v["bad"]:
+        return None
+    return {"clause": clause(tr, v), "why": explain(tr, v)}
